@@ -86,6 +86,13 @@ func (f *FeedbackAdapter) OnSent(ts time.Time, header *rtp.Header, size int, att
 	return f.onSentRFC8888(ts, header, size)
 }
 
+// hasRecvDelta reports whether a status symbol comes with a receive delta. "Packet
+// received, w/o timestamp" does not: rtcp allots deltas to the small and large delta
+// symbols only, and consuming one for it misaligns every later packet of the feedback.
+func hasRecvDelta(symbol uint16) bool {
+	return symbol == rtcp.TypeTCCPacketReceivedSmallDelta || symbol == rtcp.TypeTCCPacketReceivedLargeDelta
+}
+
 func (f *FeedbackAdapter) unpackRunLengthChunk(
 	start uint16, refTime time.Time, chunk *rtcp.RunLengthChunk, deltas []*rtcp.RecvDelta,
 ) (consumedDeltas int, nextRef time.Time, acks []Acknowledgment, err error) {
@@ -102,7 +109,7 @@ func (f *FeedbackAdapter) unpackRunLengthChunk(
 		// Every received packet has a delta, whether or not the packet is
 		// still in the history: the deltas must stay aligned with the symbols.
 		ack, ok := f.history.get(key)
-		if chunk.PacketStatusSymbol != rtcp.TypeTCCPacketNotReceived {
+		if hasRecvDelta(chunk.PacketStatusSymbol) {
 			if len(deltas)-1 < deltaIndex {
 				return deltaIndex, refTime, result, errInvalidFeedback
 			}
@@ -133,7 +140,7 @@ func (f *FeedbackAdapter) unpackStatusVectorChunk(
 		// Every received packet has a delta, whether or not the packet is
 		// still in the history: the deltas must stay aligned with the symbols.
 		ack, ok := f.history.get(key)
-		if symbol != rtcp.TypeTCCPacketNotReceived {
+		if hasRecvDelta(symbol) {
 			if len(deltas)-1 < deltaIndex {
 				return deltaIndex, refTime, result, errInvalidFeedback
 			}
